@@ -59,6 +59,9 @@ SAME = [
     ("dict() vs literal", "def f(a, b):\n    return g(dict(x=a, y=b))", "def f(a, b):\n    return g({'x': a, 'y': b})"),
     ("private literal table", "def f(k):\n    return {'a': 1, 'b': 2}[k]", "def f(k):\n    return _TABLE[k]"),
     ("continue then store", "def f(d):\n    out = {}\n    for k, v in d.items():\n        if k in skip:\n            continue\n        if v.ok:\n            out[k] = v\n    return out", "def f(d):\n    return {k: v for k, v in d.items() if k not in skip and v.ok}"),
+    ("concat vs f-string", "def f(a, b):\n    return 'sigma_' + a + b", "def f(a, b):\n    return f'sigma_{a}{b}'"),
+    ("if/else appends", "def f(xs):\n    out = []\n    for x in xs:\n        if x.p:\n            out.append(x.build())\n        else:\n            out.append(x)\n    return out", "def f(xs):\n    return [x.build() if x.p else x for x in xs]"),
+    ("tuple(dict comp)", "def f(d, ids):\n    r = {i: d[i] for i in ids}\n    return g(tuple(r.keys()))", "def f(d, ids):\n    r = {i: d[i] for i in ids}\n    return g(tuple(r))"),
     ("cast/bool transparent", "def f(a, c):\n    return cast(int, a) if bool(c) else 0", "def f(a, c):\n    return a if c else 0"),
 ]
 DIFFERENT = [
